@@ -25,6 +25,7 @@ EXTENDS Integers, Sequences, FiniteSets, TLC
 CONSTANTS Clients,        \* connections of the pool
           MaxInserts,     \* batches that may be sent
           MaxReqs,        \* requests per behaviour
+          MaxStatements,  \* statements per multi-query request
           Dev
 
 Endpoints == {"query", "query_cols", "multi_json", "multi_bin", "multi_xor"}
@@ -52,15 +53,18 @@ Init == /\ applied = 0 /\ sent = 0 /\ acked = 0
 
 SendInsert(c) ==
     /\ alive /\ inflight[c] = None /\ sent < MaxInserts /\ nreq < MaxReqs
-    /\ inflight' = [inflight EXCEPT ![c] = [kind |-> "insert", batch |-> sent + 1, served |-> FALSE,
+    /\ inflight' = [inflight EXCEPT ![c] = [kind |-> "insert", batch |-> sent + 1, served |-> FALSE, nq |-> 0, na |-> 0,
                                             lo |-> acked, status |-> 0, snap |-> -1]]
     /\ sent' = sent + 1 /\ nreq' = nreq + 1
     /\ UNCHANGED <<applied, acked, hist, alive>>
 
-SendQuery(c, ep, o) ==
+\* nq: number of statements in the request (the multi endpoints take a list and answer it position by position;
+\* o is the outcome class of the request: "ok" when every statement succeeds, else that of the first failing one)
+SendQuery(c, ep, o, nq) ==
     /\ alive /\ inflight[c] = None /\ nreq < MaxReqs
+    /\ (ep \in {"query", "query_cols"} => nq = 1)
     \* lo: batches acknowledged before the query was sent (they must be visible)
-    /\ inflight' = [inflight EXCEPT ![c] = [kind |-> "query", ep |-> ep, outcome |-> o, served |-> FALSE,
+    /\ inflight' = [inflight EXCEPT ![c] = [kind |-> "query", ep |-> ep, outcome |-> o, served |-> FALSE, nq |-> nq, na |-> 0,
                                             lo |-> acked, status |-> 0, snap |-> -1]]
     /\ nreq' = nreq + 1
     /\ UNCHANGED <<applied, sent, acked, hist, alive>>
@@ -75,6 +79,8 @@ Serve(c) ==
          ELSE /\ applied' = applied
               /\ inflight' = [inflight EXCEPT ![c] =
                     [r EXCEPT !.served = TRUE, !.snap = applied,
+                              \* one answer per statement, in request order
+                              !.na = IF r.outcome = "ok" THEN r.nq ELSE 0,
                               !.status = IF "QueryEndpointUnwraps" \in Dev /\ r.ep = "query" /\ r.outcome # "ok"
                                            THEN 0     \* the handler dies: no HTTP status reaches the client
                                            ELSE StatusOf(r.outcome)]]
@@ -89,7 +95,7 @@ Receive(c) ==
 
 Next == \E c \in Clients :
           \/ SendInsert(c)
-          \/ \E ep \in Endpoints, o \in Outcomes : SendQuery(c, ep, o)
+          \/ \E ep \in Endpoints, o \in Outcomes, nq \in 1..MaxStatements : SendQuery(c, ep, o, nq)
           \/ Serve(c)
           \/ Receive(c)
 Spec == Init /\ [][Next]_vars /\ WF_vars(\E c \in Clients : Serve(c) \/ Receive(c))
@@ -102,6 +108,7 @@ AnswersOK == \A i \in 1..Len(hist) :
       h.r.kind = "query" =>
         /\ h.r.lo <= h.r.snap /\ h.r.snap <= h.hi
         /\ (h.r.outcome = "ok" <=> h.r.status = 200)
+        /\ (h.r.status = 200 => h.r.na = h.r.nq)
 \* a failing query maps to an HTTP error status (and not to a dropped connection)
 ErrorsMapped == \A i \in 1..Len(hist) :
     hist[i].r.kind = "query" /\ hist[i].r.outcome # "ok" => hist[i].r.status \in {400, 500, 501}
